@@ -45,7 +45,7 @@
      NoPreviousName  the panic! of `encode` for a leading `Field { name: None, .. }`
      OutOfFuel       the model's fuel of `converge` ran out (fuel = entries + 1; never happens)
    Proofs/HpackEncProofs.v shows that only NoPreviousName is reachable. *)
-From Coq Require Import String.
+From Coq Require Import String Uint63.
 From H2V Require Import Base.Tac Base.Bytes Gen.StaticTable Model.HttpTokens Model.Huffman.
 From H2V Require Import Ref.Rfc7541Block.       (* used by the oracle at the end of the file only *)
 Local Open Scope N_scope.
@@ -566,3 +566,66 @@ Definition oracle_of_case (c : N * N * list block_rec) : N :=
    0 fine, 1 model and implementation differ, 2 the oracle objects, 3 both *)
 Definition check_and_oracle (c : N * N * list block_rec) : N :=
   (if check_hpack_enc c then 0 else 1) + (if oracle_of_case c =? 0 then 0 else 2).
+
+(* ---------------------------------------------------------------------------------------- *)
+(* compact transport of recorded cases.  coqc reads a list literal of octets at only ~12000
+   octets per second (one term node per bit); the Python side therefore writes an octet string as
+   its length and 7 octets per primitive 63-bit integer (little endian), and the case is unpacked
+   here before it is checked.  Used for recorded data only, in no theorem. *)
+
+Definition pbytes : Type := (N * list int)%type.
+
+Definition byte_at (w : int) (i : int) : N :=
+  Z.to_N (Uint63.to_Z (Uint63.land (Uint63.lsr w (Uint63.mul 8 i)) 255)).
+
+Definition word_bytes (w : int) : list N :=
+  [byte_at w 0; byte_at w 1; byte_at w 2; byte_at w 3; byte_at w 4; byte_at w 5; byte_at w 6].
+
+Fixpoint take_bytes (n : nat) (l : list N) : list N :=
+  match n, l with
+  | S n', x :: l' => x :: take_bytes n' l'
+  | _, _ => []
+  end.
+
+Definition unpack (p : pbytes) : list N :=
+  take_bytes (N.to_nat (fst p)) (flat_map word_bytes (snd p)).
+
+Definition pfield_in : Type := (option pbytes * pbytes * bool)%type.
+
+Inductive pblock_obs :=
+| POut (out : pbytes) (size max : N) (entries : option (list (pbytes * pbytes)))
+| PPanicNoName
+| PPanicOther.
+
+Definition pblock_rec : Type := (list N * list pfield_in * pblock_obs)%type.
+
+Definition unpack_field (f : pfield_in) : field_in :=
+  let '(n, v, s) := f in
+  FI (match n with Some n' => Some (unpack n') | None => None end) (unpack v) s.
+
+Definition unpack_obs (o : pblock_obs) : block_obs :=
+  match o with
+  | POut out size max entries =>
+    OOut (unpack out) size max
+         (match entries with
+          | Some es => Some (map (fun e => (unpack (fst e), unpack (snd e))) es)
+          | None => None
+          end)
+  | PPanicNoName => OPanicNoName
+  | PPanicOther => OPanicOther
+  end.
+
+Definition unpack_block (b : pblock_rec) : block_rec :=
+  let '(ups, fl, o) := b in (ups, map unpack_field fl, unpack_obs o).
+
+Definition unpack_case (c : N * N * list pblock_rec) : N * N * list block_rec :=
+  let '(max_size, cap, blocks) := c in (max_size, cap, map unpack_block blocks).
+
+Definition check_hpack_enc_packed (c : N * N * list pblock_rec) : bool :=
+  check_hpack_enc (unpack_case c).
+
+Definition oracle_of_case_packed (c : N * N * list pblock_rec) : N :=
+  oracle_of_case (unpack_case c).
+
+Definition check_and_oracle_packed (c : N * N * list pblock_rec) : N :=
+  check_and_oracle (unpack_case c).
